@@ -235,6 +235,28 @@ pub fn judge<B: Backend>(e: &B::E, want: &Pt) -> Result<Judged, String> {
     Ok(Judged { z_is_one: co.z_is_one(), canonical_rep: affine == canon, affine })
 }
 
+/// `judge` with the canonical representative of the expected element supplied by the caller
+pub fn judge_with<B: Backend>(e: &B::E, want: &Pt, canon: &Pt) -> Result<Judged, String> {
+    let co = Coords::of::<B>(e);
+    let affine = judge_fast::<B>(e, want)?;
+    Ok(Judged { z_is_one: co.z_is_one(), canonical_rep: affine == *canon, affine })
+}
+
+/// Like `judge` but without classifying the representative (no model square root).
+pub fn judge_fast<B: Backend>(e: &B::E, want: &Pt) -> Result<Pt, String> {
+    let c = &*CURVE;
+    let co = Coords::of::<B>(e);
+    let affine = co.affine()?;
+    if !c.same_element(want, &affine) {
+        let what = if !c.on_curve(&affine) { "not on the curve" } else { "a different element" };
+        return Err(format!(
+            "coordinates denote ({:x}, {:x}) which is {what}; expected ({:x}, {:x}) or its coset partner",
+            affine.x, affine.y, want.x, want.y
+        ));
+    }
+    Ok(affine)
+}
+
 pub fn is_zero_one(k: &N) -> bool {
     k.is_zero() || k.is_one()
 }
